@@ -168,6 +168,12 @@ def run(c, facts, tier):
         fldname = "vars" if okd else None
         pushed = {fld for meth in ALLOC for p in mgr.paths(facts, M, meth) for fld, _, _, _ in p.pushes if fld not in ("fini", "init")}
         c.ob("C11.scope", dk, "definitions are the pushed bindings in creation order", okd and pushed <= {fldname}, "definitions() joins the insertion-ordered Vec %s; bindings are pushed to %s" % (vars_paths, sorted(pushed)))
+    # C11.key (types): "identical requests share, different requests never share" is decided above on the keys the managers build;
+    # it holds for the *map* only if equality and hash of the key types look at every field (derived impls do)
+    from .. import valuetraits as _vt
+
+    kp_ = _vt.key_problems(facts)
+    c.ob("C11.key", "sharing tables", "equality and hash of the key types cover every field (derived)", not kp_, "key types of the crate's maps: %s%s" % (sorted(_vt.key_types(facts)), ("; NOT derived: %s — two different requests can compare equal and share one resource" % kp_) if kp_ else ""), witness="-fprint f -fprint0 f" if kp_ else None)
     # C11.identity: a reference reaches "the printer created for that very destination" only if the printer bound to the name
     # carries, as its frame tag, the number its own name and its table entry carry — a tag rendered from a converted, truncated or
     # later value binds the name to a printer that announces another destination (decision shared with C10.one-index)
